@@ -12,6 +12,7 @@ SUBST_TEXTS = [
     "\u00b2", "\u0663", "\uff12\uff10\uff12\uff10-01-02", "9" * 5000, "(\u00b2,3)", "(1," + "9" * 5000 + ")",
     "(1,2)", "(2,1)", "(None,None)", "(1,2,3)", "(-1,2)", "(1.0,2.0)", "[1, 2]", "[a, b]", "{a: 1}",
     "2020-13-45", "2020-01-02", "12:34:56", "2020-01-02 03:04:05", "0000-00-00",
+    ".inf", ".nan", "Infinity", "NaN", "-.inf", "1e999", "2.0", "1e2",
     "5b6a1b40-2bd4-4a12-8f3c-0a1b2c3d4e5f", "not-an-id", "1.1", "1.0", "2", "int", "2-tuple",
     "10-tuple", "bogus", "a/b", "..", "%s", "{0}", "\\", "&amp;", "a: b", "- x", "# c", "'", '"',
 ]
@@ -26,6 +27,9 @@ _HOT = re.compile(rb"(?:<(?:date|id|version|type|name|val_cardinality|sec_cardin
                   rb"prop_cardinality|uncertainty|Document|sections|properties)\"?: *([^\n]+))")
 
 
+_CARD_ITEMS = re.compile(rb"_cardinality\"?: *\[?\n *(?:- )?([^\n,]+),?\n *(?:- )?([^\n,]+)\n")
+
+
 def hot_spans(data):
     """Byte spans of the scalars most likely to upset a reader (dates, ids, versions, names,
     dtype names, cardinalities, structural keys)."""
@@ -34,6 +38,10 @@ def hot_spans(data):
         span = m.span(1) if m.group(1) is not None else m.span(2)
         if span[1] > span[0]:
             out.append(span)
+    # JSON / YAML write a cardinality as a list of two items on lines of their own
+    for m in _CARD_ITEMS.finditer(data):
+        out.append(m.span(1))
+        out.append(m.span(2))
     return out
 
 
